@@ -14,4 +14,9 @@ Got == [o \in {E.chunks[i].off : i \in 1..Len(E.chunks)} |->
 GotLen == [o \in DOMAIN Got |-> E.chunks[Got[o]].len]
 ReportExact == l = 0 \/ MissExact(E.segs, GotLen, E.size)
 ReportIsSpec == l = 0 \/ Mat(E.segs) = Mat(MissSegments(GotLen, E.size))
+\* the report on the wire is the 0x9212 body of exactly these ranges, and the parser reads the same ranges back -
+\* also when its receiver has read another report before
+Plain(ss) == Mat([i \in 1..Len(ss) |-> [off |-> ss[i].off, len |-> ss[i].len]])
+WireExact == l = 0 \/ ~E.haswire \/ Mat(E.wire) = Mat(Body9212(E.name, 2, MissSegments(GotLen, E.size)))
+ReadBack == l = 0 \/ ~E.haswire \/ (Plain(E.parsed) = Plain(E.segs) /\ Plain(E.parsed2) = Plain(E.segs))
 =============================================================================
